@@ -203,10 +203,10 @@ pub proof fn lemma_no_limit_push(tr: Seq<Gen>, g: Gen, from: int)
 //@ |     assert(context.tr@ == tr0.push(g));
 //@ |     assert(g.tag == tags@[cur].1);
 //@ |     if g.outcome is Done { g_done = g_done + 1; }
+//@ |     lemma_no_limit_push(tr0, g, g_from);
 //@ |     if !context.in_specs {
 //@ |         lemma_covers_push(g_orig, tags@, tr0, g, g_from);
 //@ |         lemma_boxes_push(tr0, g, g_from, old(bbb).boxes());
-//@ |         lemma_no_limit_push(tr0, g, g_from);
 //@ |         assert forall|j: int| 0 <= j < cur + 1 implies succeeded(context.tr@, g_from, (#[trigger] tags@[j]).1)
 //@ |             || exists|m: int| 0 <= m < remain@.len() && (#[trigger] remain@[m]).1 == tags@[j].1 by {
 //@ |             if j < cur {
@@ -253,8 +253,8 @@ pub proof fn lemma_no_limit_push(tr: Seq<Gen>, g: Gen, from: int)
 //@ - final(context).in_specs == old(context).in_specs
 //@ - r is Ok && !old(context).in_specs ==> forall|i: int| 0 <= i < old(tags)@.len() ==>
 //@       succeeded(final(context).tr@, old(context).tr@.len() as int, (#[trigger] old(tags)@[i]).1)     @@C10.retry.complete
-//@ - r is Ok && !old(context).in_specs ==> no_limit_err(final(context).tr@, old(context).tr@.len() as int)     @@C17.limit.final @@C01.retry.limit_final
-//@ - !old(context).in_specs && !no_limit_err(final(context).tr@, old(context).tr@.len() as int) ==> r is Err && is_limit(r->Err_0)     @@C17.limit.propagated
+//@ - r is Ok ==> no_limit_err(final(context).tr@, old(context).tr@.len() as int)     @@C17.limit.final @@C01.retry.limit_final
+//@ - !no_limit_err(final(context).tr@, old(context).tr@.len() as int) ==> r is Err && is_limit(r->Err_0)     @@C17.limit.propagated @@C17.limit.propagated_in_specs
 //@ - r is Ok ==> r->Ok_0 == union_spec(final(bbb).boxes())     @@C08.union.result
 //@ - r is Ok && !old(context).in_specs ==> final(bbb).boxes() == old(bbb).boxes() + ok_boxes(final(context).tr@, old(context).tr@.len() as int, final(context).tr@.len() as int)     @@C08.union.all
 //@ - r is Ok && old(context).in_specs ==> final(bbb).boxes() == old(bbb).boxes()     @@C08.union.specs_silent @@C18.specs.silent
@@ -268,7 +268,7 @@ pub proof fn lemma_no_limit_push(tr: Seq<Gen>, g: Gen, from: int)
 //@ - g_pass_no == 0 ==> g_first =~= Map::<OrderIndex, Bind>::empty() && tags@ == g_orig
 //@ - distinct_idx(g_orig)
 //@ - !context.in_specs ==> pending_covers(g_orig, tags@, context.tr@, g_from)
-//@ - !context.in_specs ==> no_limit_err(context.tr@, g_from)
+//@ - no_limit_err(context.tr@, g_from)
 //@ - !context.in_specs ==> bbb.boxes() == old(bbb).boxes() + ok_boxes(context.tr@, g_from, context.tr@.len() as int)
 //@ - context.in_specs ==> bbb.boxes() == old(bbb).boxes()
 //@ decreases
@@ -284,7 +284,7 @@ pub proof fn lemma_no_limit_push(tr: Seq<Gen>, g: Gen, from: int)
 //@ - !context.in_specs ==> pending_covers(g_orig, tags@, context.tr@, g_from)
 //@ - !context.in_specs ==> forall|j: int| 0 <= j < it.index@ ==> succeeded(context.tr@, g_from, (#[trigger] tags@[j]).1)
 //@       || exists|m: int| 0 <= m < remain@.len() && (#[trigger] remain@[m]).1 == tags@[j].1
-//@ - !context.in_specs ==> no_limit_err(context.tr@, g_from)     @@C17.limit.final.loop @@C01.retry.limit_final.loop
+//@ - no_limit_err(context.tr@, g_from)     @@C17.limit.final.loop @@C01.retry.limit_final.loop
 //@ - g_from == old(context).tr@.len() && g_orig == old(tags)@
 //@ - g_pass_no == 0 ==> tags@ == g_orig && distinct_idx(g_orig)
 //@ - g_pass_no == 0 ==> forall|k: int| it.index@ <= k < tags@.len() ==> !g_first.dom().contains((#[trigger] tags@[k]).0)
